@@ -122,9 +122,10 @@ def handleC17 : List String → Option String
 /-- selector <sel>|<sel>|… <name> -/
 def handleC19 : List String → Option String
   | ["selector", sels, name] =>
-      let ss := if sels.isEmpty then [] else (sels.splitOn "|").map (·.splitOn ".")
+      let dec := fun (s : String) => if s == "<>" then "" else s  -- "<>" spells the empty string
+      let ss := if sels.isEmpty then [] else (sels.splitOn "|").map (fun s => (dec s).splitOn ".")
       match Selector.setRules ss with
-      | .ok t => some (",".intercalate ((t.get (name.splitOn ".")).map toString))
+      | .ok t => some (",".intercalate ((t.get ((dec name).splitOn ".")).map toString))
       | .panic _ => some "panic"
       | .err k => some ("err " ++ k)
   | _ => none
